@@ -329,6 +329,7 @@ func c08eWhole(c *Ctx) {
 			}
 			key := fmt.Sprintf("%s/list-taken-whole[%s@%d]", fn.Name(), name, c.T(fn).callOrd[ci])
 			bad := ""
+			ctorDepth := 0
 			seen := map[ssa.Value]bool{}
 			var walk func(x ssa.Value)
 			walk = func(x ssa.Value) {
@@ -362,7 +363,36 @@ func c08eWhole(c *Ctx) {
 								walk(y) // grown at its end: still the list
 							}
 						default:
-							bad = "handed to " + calleeName(y) + " at " + c.W.Pos(y.Pos())
+							// a constructor that takes the list whole (stores it into the record or
+							// node it makes, or hands it on the same way) keeps it whole
+							okCtor := false
+							if g := callee(y); g != nil && c.W.InRepo(g) && len(g.Blocks) > 0 && ctorDepth < 2 {
+								for j, a := range y.Call.Args {
+									if a != x || j >= len(g.Params) {
+										continue
+									}
+									ctorDepth++
+									saveBad := bad
+									bad = ""
+									nStores := 0
+									if g.Params[j].Referrers() != nil {
+										for _, r2 := range *g.Params[j].Referrers() {
+											if st2, isSt := r2.(*ssa.Store); isSt && st2.Val == ssa.Value(g.Params[j]) {
+												if _, isFA := st2.Addr.(*ssa.FieldAddr); isFA {
+													nStores++
+												}
+											}
+										}
+									}
+									walk(g.Params[j])
+									okCtor = bad == "" && nStores > 0
+									bad = saveBad
+									ctorDepth--
+								}
+							}
+							if !okCtor {
+								bad = "handed to " + calleeName(y) + " at " + c.W.Pos(y.Pos())
+							}
 						}
 					case *ssa.Range, *ssa.Index, *ssa.IndexAddr, *ssa.Lookup:
 						bad = "walked through or indexed at " + c.W.Pos(r.Pos())
